@@ -99,8 +99,13 @@ func runWorldH(rc *RunCtx) *RunResult {
 
 	for i := 0; i < nOps; i++ {
 		upd, rec := kg.New(workload.Ed25519, i%3 == 1), kg.New(workload.Ed25519, i%4 == 2)
-		patches, _ := workload.ToPatches([]workload.PatchDesc{{Kind: workload.AddKey, IDs: []string{"k1", "k2"}[:1+i%2], Mark: fmt.Sprintf("m%d", i)},
-			{Kind: workload.AddSvc, IDs: []string{"s1"}, Mark: fmt.Sprintf("m%d", i)}}[:1+i%2])
+		pds := []workload.PatchDesc{{Kind: workload.AddKey, IDs: []string{"k1", "k2"}[:1+i%2], Mark: fmt.Sprintf("m%d", i)},
+			{Kind: workload.AddSvc, IDs: []string{"s1"}, Mark: fmt.Sprintf("m%d", i)}}[:1+i%2]
+		if i%3 == 0 {
+			pds = append(pds, workload.PatchDesc{Kind: workload.AddNote, Mark: fmt.Sprintf("n%d", i)}) // an ietf-json-patch inside the delta
+		}
+
+		patches, _ := workload.ToPatches(pds)
 
 		createReq, err := workload.Build(&workload.OpSpec{Type: operation.TypeCreate, Hash: simenv.SHA2_256, NextUpdate: upd, NextRecovery: rec, Patches: patches, AnchorOrigin: originValue(i), SuffixType: []string{"", "ipdb", ""}[i%3]})
 		if err != nil {
@@ -985,6 +990,18 @@ func (w *hWorld) structural(orig *hFileSet) {
 			dm, _ := d[0].(map[string]interface{})
 			dm["patches"] = []interface{}{}
 		}},
+		{"json-patch-with-null-member-in-chunk", fs.ch != nil && len(list(fs.ch, "deltas")) > 0, func() {
+			// an ietf-json-patch whose path (or op) is null / whose value is an array of nulls
+			d := list(fs.ch, "deltas")
+			dm, _ := d[0].(map[string]interface{})
+			bad := []interface{}{
+				[]interface{}{map[string]interface{}{"op": "add", "path": nil, "value": "v"}},
+				[]interface{}{map[string]interface{}{"op": nil, "path": "/x", "value": "v"}},
+				[]interface{}{nil},
+				[]interface{}{map[string]interface{}{"op": "add", "path": "/x", "value": "v", "from": nil}},
+			}[T.Draw(4, "struct.jsonpatch.null")]
+			dm["patches"] = []interface{}{map[string]interface{}{"action": "ietf-json-patch", "patches": bad}}
+		}},
 		{"null-delta-in-chunk", fs.ch != nil && len(list(fs.ch, "deltas")) > 0, func() {
 			d := list(fs.ch, "deltas")
 			d[len(d)-1] = nil
@@ -1015,7 +1032,9 @@ func (w *hWorld) structural(orig *hFileSet) {
 	ops, err := w.read(w.proto, anchor, nil)
 	w.k.Count("fault:byzantine-" + m.name)
 	w.nontrivial = true
-	w.verdict(w.proto, "byzantine "+m.name, anchor, ops, err, true, false)
+	// (for the JSON-patch mutation the verdict is the library validator's to give - the property only demands that the
+	// read neither panics nor returns operations that violate the safety conditions)
+	w.verdict(w.proto, "byzantine "+m.name, anchor, ops, err, m.name != "json-patch-with-null-member-in-chunk", false)
 }
 
 // randomEdit mutates one JSON node of one file (null, type confusion, deletion, retargeting).
